@@ -5,6 +5,10 @@ composition history as a state machine; ImgFiles.tla holds the acceptance automa
  MC    : BinImageMC (composition histories on a small menu, action lemmas) and BinImageTrees (every tree of a bounded space
          is an initial state; lemmas on each)
  GEN   : BinImageTrees emits every tree, BinImageGen emits histories (exhaustive on small menus, -simulate on big ones)
+ CFG   : BinImageCfg enumerates merge configurations (regions in listing order: pattern blocks, plain binary files, HEX / S19 files
+         with their own addresses; offset given - 0 included - or omitted; any listing order) and checks the configuration lemmas;
+         each is built through the real BinaryImage.load_from_config (dictionary / YAML / JSON + check_config) and the resulting
+         tree is decided by the same spec as the trees built through the API (action Config of BinImage.tla)
  replay: each tree / history is built on real spsdk.utils.images.BinaryImage objects; len(), absolute_address, validate(),
          export() are recorded; valid trees are rebased to 32-bit addresses, saved as BIN / HEX / S19 (the records of the file
          are logged raw) and loaded again (the loaded image is logged); files of an independent encoder are loaded as well
@@ -16,7 +20,7 @@ import json
 import os
 
 from lib import tlc
-from lib.common import Machinery, import_spsdk, rng, say, scratch, sha
+from lib.common import ROOT, Machinery, import_spsdk, rng, say, scratch, sha
 from lib.par import pmap
 from lib.ptv import check_complete, prun, ptv
 from lib.verdict import Verdict
@@ -28,6 +32,7 @@ PAT_MENU = [
 ]
 RAND = {"kind": "rand", "b": []}
 MAXBYTES = 200000
+ANCH = os.path.join(ROOT, "anchors", "C16")
 TV_ENV = {"JAVA_TOOL_OPTIONS": "-XX:ParallelGCThreads=2 -Xss64m"}  # deep (per record / per byte) recursion of the file automata
 
 
@@ -368,6 +373,256 @@ def packed_tree(r, big=False):
     return nodes
 
 
+# ------------------------------------------------------------------ merge configurations (BinaryImage.load_from_config)
+FILE_BASES = [0x40, 0x1000, 0xFFF0, 0x10000, 0x0FFFFF00, 0x10000000, 0x3FFFFF00]   # own addresses of HEX / S19 region files (< 2^30: TLC integers)
+NONE_PAT = {"kind": "none", "b": []}
+ENTRIES = ["dict", "yaml", "json"]
+
+
+def entry_of(i):
+    """Entry point of configuration i: every 8th through a YAML file, every 16th through a JSON file (each with check_config: the schema is
+    compiled anew every time, ~15 ms), the others hand the dictionary to load_from_config directly."""
+    return "yaml" if i % 8 == 1 else "json" if i % 16 == 3 else "dict"
+
+
+def file_bytes(w, n, r, binary):
+    d = [data_byte(w, i) for i in range(n)] if r.random() < 0.7 else [r.randrange(256) for _ in range(n)]
+    if binary and d:
+        d[0] = 0x80 | (d[0] & 0x3F)  # a UTF-8 continuation byte in front: the payload of a plain binary region is never decodable text
+    return d
+
+
+def concretise_cfg(abstract, r):
+    """TLC tuple <<overall size, alignment, <<kind, hasoff, landing offset, n>>...>> -> configuration with patterns, contents, file formats
+    and the addresses the HEX / S19 files carry (offset = landing offset - first address of the file; may be negative)."""
+    size, al, regs = abstract
+    regions, w = [], 2
+    for kind, hasoff, land, n in regs:
+        if kind == "block":
+            regions.append({"kind": "block", "hasoff": bool(hasoff), "off": land, "size": n, "pat": RAND if r.random() < 0.02 else r.choice(PAT_MENU[2:]),
+                            "segs": [], "fmt": "-"})
+            w += 1
+            continue
+        nseg = 2 if kind == "hex2" else 1
+        base = 0
+        if kind != "bin" and hasoff:
+            base = land if r.random() < 0.25 else r.choice(FILE_BASES)   # base = landing offset: `offset: 0` on a file with addresses
+        segs, at = [], base
+        for i in range(nseg):
+            ln = n if i == 0 else r.choice([1, 2, 5])
+            segs.append({"at": at, "d": file_bytes(w + 1 + i, ln, r, kind == "bin")})
+            at += ln + r.choice([1, 2, 7])
+        regions.append({"kind": "file", "hasoff": bool(hasoff), "off": land - base, "size": 0, "pat": NONE_PAT, "segs": segs,
+                        "fmt": "BIN" if kind == "bin" else r.choice(["HEX", "S19"])})
+        w += 1 + nseg
+    return {"size": size, "al": al, "pat": r.choice(PAT_MENU[1:]), "regions": regions}
+
+
+def random_cfg(r, big=False):
+    """Seeded random configuration beyond the enumerated space (1..5 regions, bigger numbers, 1..3 segments per file, empty blocks)."""
+    al = r.choice([1, 1, 2, 4, 8, 16, 3])
+    regs, w, cur = [], 2, 0
+    nreg = r.randrange(1, 6)
+    for _ in range(nreg):
+        hasoff = r.random() < 0.6
+        land = r.choice([0, 0, 1, 4, 8, 16, cur, cur + r.randrange(0, 9), r.randrange(0, 400 if big else 64)]) if hasoff else 0
+        if r.random() < 0.45:
+            n = r.choice([0, 1, 2, 3, 4, 7, 8, 16, 33] + ([100, 300] if big else []))
+            regs.append({"kind": "block", "hasoff": hasoff, "off": land, "size": n, "pat": r.choice(PAT_MENU[2:]), "segs": [], "fmt": "-"})
+            w += 1
+            cur = max(cur, land + n)
+            continue
+        fmt = r.choice(["BIN", "BIN", "HEX", "S19"])
+        nseg = 1 if fmt == "BIN" else r.randrange(1, 4)
+        base = r.choice([0] + FILE_BASES) if fmt != "BIN" and hasoff else 0
+        segs, at = [], base
+        for i in range(nseg):
+            ln = r.choice([1, 2, 3, 4, 5, 8, 16, 17, 32] + ([100, 255, 300] if big else []))
+            segs.append({"at": at, "d": file_bytes(w + 1 + i, ln, r, fmt == "BIN")})
+            at += ln + r.choice([1, 2, 3, 16, 70])
+        regs.append({"kind": "file", "hasoff": hasoff, "off": land - base, "size": 0, "pat": NONE_PAT, "segs": segs, "fmt": fmt})
+        w += 1 + nseg
+        cur = max(cur, land + segs[-1]["at"] + len(segs[-1]["d"]) - base)
+    size = r.choice([0, 0, 0, 0, cur, cur + r.randrange(0, 20), r.randrange(1, 80)])
+    return {"size": size, "al": al, "pat": r.choice(PAT_MENU[1:]), "regions": regs}
+
+
+def pat_value(pat, r):
+    if pat["kind"] != "bytes":
+        return pat["kind"]
+    v = int.from_bytes(bytes(pat["b"]), "big")
+    return v if r.random() < 0.4 else f"0x{v:0{2 * len(pat['b'])}x}"   # a number or a string holding one (first byte of the menu patterns is not 0)
+
+
+def cfg_document(cfg, tid, r):
+    """The configuration as a user writes it (keys of sch_binary.yaml); region k is named after the id of its image in the spec."""
+    doc = {"name": f"merge {tid}"}
+    if cfg["size"] or r.random() < 0.3:
+        doc["size"] = cfg["size"]
+    if cfg["pat"]["kind"] != "none":
+        doc["pattern"] = pat_value(cfg["pat"], r)
+    if cfg["al"] != 1 or r.random() < 0.3:
+        doc["alignment"] = cfg["al"]
+    doc["regions"] = []
+    w = 2
+    for reg in cfg["regions"]:
+        body = {"name": f"n{w}"}
+        if reg["kind"] == "block":
+            body.update(size=reg["size"], pattern=pat_value(reg["pat"], r))
+            w += 1
+        else:
+            body["path"] = f"t{tid}-n{w}.{reg['fmt'].lower()}"
+            w += 1 + len(reg["segs"])
+        if reg["hasoff"]:
+            body["offset"] = reg["off"]
+        doc["regions"].append({"binary_block" if reg["kind"] == "block" else "binary_file": body})
+    return doc
+
+
+def yaml_text(doc, r):
+    """Hand-rendered YAML (integers decimal or hexadecimal, strings quoted)."""
+    def val(x):
+        if isinstance(x, int):
+            return hex(x) if x >= 0 and r.random() < 0.5 else str(x)
+        return json.dumps(x)
+
+    out = [f"{k}: {val(doc[k])}" for k in doc if k != "regions"] + ["regions:"]
+    for reg in doc["regions"]:
+        (kind, body), = reg.items()
+        out.append(f"  - {kind}:")
+        out += [f"      {k}: {val(x)}" for k, x in body.items()]
+    return "\n".join(out) + "\n"
+
+
+def cfg_view(cfg):
+    """What the spec sees of a configuration (type-stable records)."""
+    return {"size": cfg["size"], "al": cfg["al"], "pat": cfg["pat"],
+            "regions": [{k: reg[k] for k in ("kind", "hasoff", "off", "size", "pat", "segs")} for reg in cfg["regions"]]}
+
+
+def replay_config(cfg, tid, r, entry="dict", adjust=False, all_nodes=False):
+    """Write the region files and the configuration, build the tree through load_from_config (as `binary-image merge` does: load_configuration
+    + check_config + load_from_config for yaml / json), log where the regions are and the projection of all images, then observe."""
+    from spsdk.utils.images import BinaryImage
+    from spsdk.utils.misc import load_configuration
+    from spsdk.utils.schema_validator import check_config
+
+    recipe = {"kind": "cfg", "cfg": cfg, "entry": entry, "adjust": adjust, "all_nodes": all_nodes}
+    out = {"id": tid, "ev": [], "recipe": recipe, "cls": "cfg"}
+    evs = out["ev"]
+    d = os.path.join(scratch(), f"c16-cfg-{os.getpid()}")   # one folder per worker (rmdir is slow here); the files carry the trace id
+    os.makedirs(d, exist_ok=True)
+    made = []
+    try:
+        doc = cfg_document(cfg, tid, r)
+        for reg, item in zip(cfg["regions"], doc["regions"]):
+            if reg["kind"] != "file":
+                continue
+            path = os.path.join(d, item["binary_file"]["path"])
+            made.append(path)
+            segs = [(sg["at"], sg["d"]) for sg in reg["segs"]]
+            if reg["fmt"] == "BIN":
+                with open(path, "wb") as f:
+                    f.write(bytes(segs[0][1]))
+                if sniffable(path):
+                    raise Machinery(f"generated binary region file is text-like: {segs[0][1]}")
+            else:
+                text = enc_hex(segs, None, r) if reg["fmt"] == "HEX" else enc_srec(segs, None, r)[0]
+                with open(path, "w", newline="") as f:
+                    f.write(text)
+        try:
+            if entry == "dict":
+                conf = doc
+            else:
+                cpath = os.path.join(d, f"t{tid}-merge.{entry}")
+                made.append(cpath)
+                with open(cpath, "w") as f:
+                    f.write(yaml_text(doc, r) if entry == "yaml" else json.dumps(doc, indent=1))
+                conf = load_configuration(cpath)
+                check_config(conf, BinaryImage.get_validation_schemas(), search_paths=[d])
+            im = BinaryImage.load_from_config(conf, search_paths=[d])
+        except Exception as e:  # noqa: BLE001 - a configuration of the schema that cannot be loaded is an observation
+            evs.append({"a": "Crash", "of": "Config", "exc": type(e).__name__})
+            return out
+    finally:
+        for path in made:
+            try:
+                os.remove(path)
+            except OSError:
+                pass
+    real = Real()
+    try:  # whatever the real objects answer here is an observation: nothing in this block may end the run
+        real.img[1] = im
+        subs = list(im.sub_images)
+        w, place, ok = 2, [], len(subs) == len(cfg["regions"])
+        for reg in cfg["regions"]:
+            mine = [x for x in subs if x.name == f"n{w}"]
+            if not ok or len(mine) != 1:
+                ok = False
+                break
+            real.img[w] = mine[0]
+            place.append(int(mine[0].offset))
+            if reg["kind"] == "file":
+                kids = list(mine[0].sub_images)
+                if len(kids) != len(reg["segs"]):
+                    ok = False
+                    break
+                for i, kid in enumerate(kids):
+                    real.img[w + 1 + i] = kid
+                w += len(kids)
+            w += 1
+        if not ok:
+            evs.append({"a": "Crash", "of": "Config", "exc": "images-differ-from-regions"})
+            return out
+        ev = {"a": "Config", "cfg": cfg_view(cfg), "place": place}
+        ev.update(real.projection())
+        evs.append(ev)
+    except Exception as e:  # noqa: BLE001
+        evs.append({"a": "Crash", "of": "Config", "exc": "projection:" + type(e).__name__})
+        return out
+    if adjust:  # merge --adjust-offsets
+        try:
+            evs.append(real.apply({"a": "UpdateOffsets", "n": 1}, r))
+        except Crash as c:
+            evs.append({"a": "Crash", "of": c.of, "exc": c.exc})
+            return out
+    for n in (real.ids() if all_nodes else [1]):
+        evs.append(real.ev_validate(n))
+        evs.append(real.ev_export(n))
+    return out
+
+
+def cfg_place_class(ev):
+    """Class of the first region whose place is not one the configuration text allows (for the finding key only)."""
+    cfg, al, ends = ev["cfg"], ev["cfg"]["al"], []
+
+    def up(n):
+        return (n + al - 1) // al * al
+
+    for k, (reg, p) in enumerate(zip(cfg["regions"], ev["place"])):
+        first = reg["segs"][0]["at"] if reg["kind"] == "file" else 0
+        rlen = reg["segs"][-1]["at"] + len(reg["segs"][-1]["d"]) - first if reg["kind"] == "file" else reg["size"]
+        allowed = {reg["off"] + first} if reg["hasoff"] else {up(ends[-1] if ends else 0), up(max(ends, default=0))}
+        if p not in allowed or p < 0:
+            off = ("offset-given-0" if reg["off"] == 0 else "offset-given") if reg["hasoff"] else "offset-omitted"
+            return f"place/{off}/{'overall-size-explicit' if cfg['size'] else 'overall-size-derived'}/{'first-region' if k == 0 else 'later-region'}"
+        ends.append(p + rlen)
+    return "projection"
+
+
+def cfg_export_class(t):
+    """Input class of a configuration for an export finding: is a file with several segments listed behind a pattern block?"""
+    if t["recipe"]["kind"] != "cfg":
+        return ""
+    cfg, block_seen = t["recipe"]["cfg"], False
+    for reg in cfg["regions"]:
+        if reg["kind"] == "block" and reg["pat"] != cfg["pat"]:
+            block_seen = True
+        if reg["kind"] == "file" and len(reg["segs"]) > 1 and block_seen:
+            return "/multi-segment-file-listed-behind-block"
+    return "/config"
+
+
 # ------------------------------------------------------------------ histories
 def replay_history(hist, tid, r, watch_all=False):
     """Step a TLC behaviour through real objects; after every action observe the trees it touched."""
@@ -396,8 +651,6 @@ def replay_history(hist, tid, r, watch_all=False):
 
 def random_history(tid, r, steps):
     """Seeded random composition history chosen against the real objects (code -> spec direction)."""
-    from spsdk.exceptions import SPSDKError
-
     real = Real()
     hist = []
     nmax = r.randrange(2, 8)
@@ -433,7 +686,7 @@ def random_history(tid, r, steps):
             try:
                 real.img[n].validate()
                 a = {"a": "Join", "n": n}
-            except SPSDKError:
+            except Exception:  # noqa: BLE001 - only steers the choice of the next action; the replay below logs what validate() says
                 a = None
         else:
             cands = [n for n in alive if real.img[n].sub_images]
@@ -601,7 +854,7 @@ def key_of(t, matched):
     a = ev["a"]
     op = "Tree"
     for e in evs[:matched + 1]:
-        if e["a"] in ("Tree", "New", "Add", "Append", "SetSize", "Join", "UpdateOffsets"):
+        if e["a"] in ("Tree", "Config", "New", "Add", "Append", "SetSize", "Join", "UpdateOffsets"):
             op = e["a"]
     if a == "Crash" and ev["of"].startswith("Save"):
         # class of the tree from the logged numbers: does it hold an image without a single byte that has a fill pattern?
@@ -611,6 +864,8 @@ def key_of(t, matched):
         return f"C16/fmt/{ev['of'][4:]}/save/crash:{ev['exc']}/" + ("tree-has-empty-patterned-image" if empty_pat else "no-empty-image")
     if a == "Crash":
         return f"C16/{ev['of']}/crash:{ev['exc']}"
+    if a == "Config":
+        return f"C16/Config/{cfg_place_class(ev)}"
     if a == "Validate":
         res = ev["res"]
         cls = "accepted-invalid" if res == "ok" else "refused-valid" if res == "error" else res
@@ -622,7 +877,7 @@ def key_of(t, matched):
         for e in evs[:matched]:
             if isinstance(e.get("len"), list) and len(e["len"]) >= ev["n"]:
                 ln = e["len"][ev["n"] - 1]
-        return f"C16/{op}/export/" + ("length-differs-from-len" if ln is not None and ln != len(ev["d"]) else "bytes")
+        return f"C16/{op}/export/" + ("length-differs-from-len" if ln is not None and ln != len(ev["d"]) else "bytes") + cfg_export_class(t)
     if a == "File":
         return f"C16/fmt/{ev['fmt']}/file/{t['cls'].split('/')[-1]}"
     if a == "Load":
@@ -638,23 +893,99 @@ def strip(t):
 
 
 def nontrivial_key(t):
-    return sha([t["cls"], [{k: v for k, v in e.items() if k not in ("len", "abs", "d", "res", "ex")} for e in t["ev"] if e["a"] not in ("Validate", "Export", "Load")]])
+    return sha([t["cls"], [{k: v for k, v in e.items() if k not in ("len", "abs", "d", "res", "ex", "place")} for e in t["ev"] if e["a"] not in ("Validate", "Export", "Load")]])
 
 
 # ------------------------------------------------------------------ run
-def canary(v):
-    r = rng(PROP, "canary")
+def canary_good():
+    """The uncorrupted canary traces, written by hand from the property text (no SPSDK involved): a tree with a HEX round trip,
+    a composition history, and a merge configuration under both readings of an omitted offset.  TLC must accept them at the start
+    of every run; anchors/C16/canary_traces.json holds them (regenerate with make_canary() after a change of the trace format)."""
+    import random
+
+    none, ones, inc = {"kind": "none", "b": []}, {"kind": "ones", "b": []}, {"kind": "inc", "b": []}
+    # -- tree: root (alignment 4, pattern 0x1234) with [144,145,146] at 1 and a 4-byte image ([160] + ones) at 6; length 10 -> 12
     nodes = [{"par": 0, "off": 0, "size": 0, "al": 4, "data": [], "pat": {"kind": "bytes", "b": [18, 52]}},
-             {"par": 1, "off": 1, "size": 0, "al": 1, "data": [144, 145, 146], "pat": {"kind": "none", "b": []}},
-             {"par": 1, "off": 6, "size": 4, "al": 2, "data": [160], "pat": {"kind": "ones", "b": []}}]
-    traces = []
-    good = replay_tree(nodes, "good", r, fmt={"fmt": "HEX", "base": "straddle-2^16", "exec": "rand"})
+             {"par": 1, "off": 1, "size": 0, "al": 1, "data": [144, 145, 146], "pat": none},
+             {"par": 1, "off": 6, "size": 4, "al": 2, "data": [160], "pat": ones}]
+    d = [18, 144, 145, 146, 18, 52, 160, 255, 255, 255, 18, 52]
+    base, exe = 0xFFFB, 0x12345678                                  # straddles 2^16
+    text = enc_hex([(base, d)], exe, random.Random(16))            # the file is written by the encoder of the raw-file lane
+    good = {"id": "good", "cls": "tree", "recipe": {"kind": "tree", "nodes": nodes, "fmt": None, "all_nodes": False}, "ev": [
+        {"a": "Tree", "nodes": nodes, "len": [12, 3, 4], "abs": [0, 1, 6]},
+        {"a": "Validate", "n": 1, "res": "ok"},
+        {"a": "Export", "n": 1, "ex": "ok", "d": d},
+        {"a": "File", "fmt": "HEX", "n": 1, "base": limbs(base), "exec": exec_rec(exe), "recs": tokenize("HEX", text.encode())},
+        {"a": "Load", "fmt": "HEX", "res": "ok", "textlike": False, "abs": limbs(base), "len": 12, "segs": [{"at": limbs(base), "d": d}],
+         "exec": exec_rec(exe), "d": d}]}
+    # -- history: add, append, update_offsets, join, size setter on three images
+    h = [{"a": "New", "n": 1, "off": 2, "size": 0, "al": 4, "data": [], "pat": ones},
+         {"a": "New", "n": 2, "off": 3, "size": 0, "al": 1, "data": [144, 145], "pat": none},
+         {"a": "Add", "p": 1, "c": 2}, {"a": "New", "n": 3, "off": 5, "size": 3, "al": 1, "data": [160], "pat": inc},
+         {"a": "Append", "p": 1, "c": 3}, {"a": "UpdateOffsets", "n": 1}, {"a": "Join", "n": 1}, {"a": "SetSize", "n": 1, "s": 9}]
+    proj = [([0], [2]), ([0, 2], [2, 3]), ([8, 2], [2, 5]), ([8, 2, 3], [2, 5, 5]), ([12, 2, 3], [2, 5, 10]), ([8, 2, 3], [5, 5, 10]),
+            ([8, 0, 0], [5, 0, 0]), ([12, 0, 0], [5, 0, 0])]
+    exports = {2: [255, 255, 255, 144, 145, 255, 255, 255], 4: [255, 255, 255, 144, 145, 255, 255, 255, 160, 1, 2, 255],
+               5: [144, 145, 255, 255, 255, 160, 1, 2], 6: [144, 145, 255, 255, 255, 160, 1, 2], 7: [144, 145, 255, 255, 255, 160, 1, 2, 255, 255, 255, 255]}
+    hev = []
+    for k, (a, (ln, ab)) in enumerate(zip(h, proj)):
+        if a["a"] == "Join":
+            hev.append({"a": "Validate", "n": 1, "res": "ok"})
+        hev.append(dict(a, len=ln, abs=ab))
+        if k in exports:
+            hev += [{"a": "Validate", "n": 1, "res": "ok"}, {"a": "Export", "n": 1, "ex": "ok", "d": exports[k]}]
+    hev += [{"a": "Validate", "n": 1, "res": "ok"}, {"a": "Export", "n": 1, "ex": "ok", "d": exports[7]}]
+    hist = {"id": "hist-good", "cls": "hist", "recipe": {"kind": "hist", "hist": h}, "ev": hev}
+    # -- merge configuration: block at 8, a binary file with `offset: 0` listed SECOND, a block without offset; alignment 4, pattern 0xA5
+    cfg = {"size": 0, "al": 4, "pat": {"kind": "bytes", "b": [165]}, "regions": [
+        {"kind": "block", "hasoff": True, "off": 8, "size": 6, "pat": ones, "segs": []},
+        {"kind": "file", "hasoff": True, "off": 0, "size": 0, "pat": none, "segs": [{"at": 0, "d": [129, 130, 131]}]},
+        {"kind": "block", "hasoff": False, "off": 0, "size": 2, "pat": inc, "segs": []}]}
+
+    def cfg_trace(tid, place, ln, ab, data):
+        ev = [{"a": "Config", "cfg": cfg, "place": place, "len": ln, "abs": ab}]
+        if data is not None:
+            ev += [{"a": "Validate", "n": 1, "res": "ok"}, {"a": "Export", "n": 1, "ex": "ok", "d": data}]
+        return {"id": tid, "cls": "cfg", "recipe": {"kind": "cfg", "cfg": cfg, "entry": "dict", "adjust": False, "all_nodes": False}, "ev": ev}
+
+    a5 = 165
+    return [good, hist,
+            # the block without offset behind everything listed before it (18 -> 20 bytes) ...
+            cfg_trace("cfg-good", [8, 0, 16], [20, 6, 3, 3, 2], [0, 8, 0, 0, 16], [129, 130, 131] + [a5] * 5 + [255] * 6 + [a5] * 2 + [0, 1] + [a5] * 2),
+            # ... or behind the region listed just before it (both readings of "after previous one" are allowed)
+            cfg_trace("cfg-good-after-previous", [8, 0, 4], [16, 6, 3, 3, 2], [0, 8, 0, 0, 4], [129, 130, 131, a5, 0, 1, a5, a5] + [255] * 6 + [a5] * 2),
+            # self-consistent trees that the configuration does not describe: `offset: 0` taken for "no offset" (appended at 16) ...
+            cfg_trace("bad-cfg-offset-0-appended", [8, 16, 20], [24, 6, 3, 3, 2], [0, 8, 16, 16, 20], None),
+            # ... and a region without offset placed at the unaligned end
+            cfg_trace("bad-cfg-unaligned", [8, 0, 14], [16, 6, 3, 3, 2], [0, 8, 0, 0, 14], None)]
+
+
+def make_canary():
+    """Regenerates anchors/C16/canary_traces.json from the hand-written traces above (SPSDK is not imported):
+    VERIF_ROOT=/verif PYTHONPATH=/verif/harness /venv/bin/python -c 'import c16; c16.make_canary()'"""
+    traces = canary_good()
+    rej, res = tlc.tv("C16", "BinImageTrace", [strip(t) for t in traces], env=TV_ENV)
+    check_complete(res, len(traces))
+    if set(rej) != {t["id"] for t in traces if t["id"].startswith("bad")}:
+        raise Machinery(f"not a good canary: {rej}")
+    os.makedirs(ANCH, exist_ok=True)
+    with open(os.path.join(ANCH, "canary_traces.json"), "w") as f:
+        json.dump(traces, f, indent=0, separators=(",", ":"))
+    say(f"wrote {len(traces)} canary traces")
+
+
+def canary(v):
+    """Fixed traces from anchors/C16 (independent of the code under test): the uncorrupted ones must be accepted, every copy with one
+    corrupted field (and the stored self-consistent trees a configuration does not describe) must be rejected."""
+    with open(os.path.join(ANCH, "canary_traces.json")) as f:
+        traces = json.load(f)
+    by_id = {t["id"]: t for t in traces}
+    good = by_id["good"]
     if [e["a"] for e in good["ev"]] != ["Tree", "Validate", "Export", "File", "Load"]:
         raise Machinery(f"canary trace has an unexpected shape: {[e['a'] for e in good['ev']]}")
-    traces.append(good)
 
-    def variant(name, fn):
-        t = json.loads(json.dumps(good))
+    def variant(name, fn, src="good"):
+        t = json.loads(json.dumps(by_id[src]))
         t["id"] = name
         fn(t["ev"])
         traces.append(t)
@@ -668,23 +999,17 @@ def canary(v):
     variant("bad-exec", lambda ev: ev[4]["exec"]["v"].__setitem__(1, ev[4]["exec"]["v"][1] ^ 1))
     variant("bad-segaddr", lambda ev: ev[4]["segs"][0]["at"].__setitem__(1, (ev[4]["segs"][0]["at"][1] + 1) % 65536))
     variant("bad-segbyte", lambda ev: ev[4]["segs"][0]["d"].__setitem__(0, ev[4]["segs"][0]["d"][0] ^ 4))
-    h = [{"a": "New", "n": 1, "off": 2, "size": 0, "al": 4, "data": [], "pat": {"kind": "ones", "b": []}},
-         {"a": "New", "n": 2, "off": 3, "size": 0, "al": 1, "data": [144, 145], "pat": {"kind": "none", "b": []}},
-         {"a": "Add", "p": 1, "c": 2}, {"a": "New", "n": 3, "off": 5, "size": 3, "al": 1, "data": [160], "pat": {"kind": "inc", "b": []}},
-         {"a": "Append", "p": 1, "c": 3}, {"a": "UpdateOffsets", "n": 1}, {"a": "Join", "n": 1}, {"a": "SetSize", "n": 1, "s": 9}]
-    hg = replay_history(h, "hist-good", r)
-    traces.append(hg)
-    hb = json.loads(json.dumps(hg))
-    hb["id"] = "hist-bad"
-    upd = next(e for e in hb["ev"] if e["a"] == "UpdateOffsets")
-    upd["abs"][0] += 1
-    traces.append(hb)
+    variant("bad-hist", lambda ev: next(e for e in ev if e["a"] == "UpdateOffsets")["abs"].__setitem__(0, 6), src="hist-good")
+    variant("bad-cfg-place", lambda ev: ev[0]["place"].__setitem__(1, 1), src="cfg-good")                  # the region with `offset: 0` is not at 0
+    variant("bad-cfg-abs", lambda ev: ev[0]["abs"].__setitem__(4, 17), src="cfg-good")
+    variant("bad-cfg-byte", lambda ev: ev[2]["d"].__setitem__(0, ev[2]["d"][0] ^ 1), src="cfg-good-after-previous")
     rej, res = tlc.tv("C16", "BinImageTrace", [strip(t) for t in traces], env=TV_ENV)
     check_complete(res, len(traces))
-    expect = {t["id"] for t in traces if str(t["id"]).startswith(("bad", "hist-bad"))}
+    expect = {t["id"] for t in traces if str(t["id"]).startswith("bad")}
     if set(rej) != expect:
         raise Machinery(f"canary failed: rejected {sorted(rej)}, expected {sorted(expect)}")
-    v.extra["canary"] = f"2 uncorrupted traces accepted; {len(expect)} traces with one corrupted field each rejected: {sorted(expect)}"
+    v.extra["canary"] = (f"{len(traces) - len(expect)} stored uncorrupted traces accepted (tree + HEX round trip, history, merge configuration under both readings); "
+                         f"{len(expect)} corrupted / non-conformant traces rejected: {sorted(expect)}")
     return good
 
 
@@ -756,9 +1081,11 @@ def run(tier):
              for n, d, _ in gens]
     jobs.append(("run", ("C16", "BinImageGen", "BinImageGenSim.cfg"), dict(env={"GEN_DEPTH": 10, "GEN_MODE": "sim", "GEN_NODES": 0}, workers=1, deadlock=False,
                                                                            simulate=f"num={n_sim}", depth=14, heap="4g", timeout=2400)))
+    jobs.append(("mc", ("C16", "BinImageCfg", "BinImageCfg.cfg" if quick else "BinImageCfg_t.cfg"), dict(coverage=False, workers=2 if quick else 4, heap="4g", timeout=2400)))
     res = prun(jobs)
+    cfg_res = res.pop()
     mc, tree_res, gen_res, sim_res = res[0], res[1:1 + len(tree_cfgs)], res[1 + len(tree_cfgs):-1], res[-1]
-    for x in res[:-1]:
+    for x in res[:-1] + [cfg_res]:
         v.add_mc(x)
     say(f"[C16] MC histories: {mc.distinct} states; TLC generation done ({v.timer.s()}s)")
     pipe = Pipeline(v, jobs=8 if quick else 12, limit=10**9 if quick else 150000)
@@ -788,6 +1115,31 @@ def run(tier):
             pipe.feed(traces, sample_at=len(traces) // 2)
             say(f"[C16] {off + len(part)} enumerated trees replayed on real BinaryImage objects ({v.timer.s()}s)")
         n_abstract += len(abstract)
+
+    import bincopy  # noqa: F401 - imported once here, not in every forked worker
+    import spsdk.utils.schema_validator  # noqa: F401
+
+    # ---- every merge configuration of the bounded space, built through the real load_from_config (dictionary / YAML / JSON in turn)
+    acfgs = sorted(cfg_res.json_prints(), key=json.dumps)   # TLC prints in the order its workers reach the states: fix the numbering
+    cfg_res.out = ""
+    if len(acfgs) < 1000 or cfg_res.distinct <= len(acfgs):   # Config is the only action: it fired iff there are states besides the initial one
+        raise Machinery(f"configuration GEN emitted {len(acfgs)} configurations for {cfg_res.distinct} states")
+    n_rcfg = 600 if quick else 8000
+
+    def do_cfg(ia):
+        i, a = ia
+        rr = rng(PROP, "cfg", i)
+        return replay_config(concretise_cfg(a, rr), 70000000 + i, rr, entry=entry_of(i), adjust=(i % 7 == 3), all_nodes=(i % 5 == 0))
+
+    def do_rcfg(i):
+        rr = rng(PROP, "rcfg", i)
+        return replay_config(random_cfg(rr, big=(i % 10 == 0)), 80000000 + i, rr, entry=entry_of(i), adjust=(i % 7 == 3), all_nodes=(i % 4 == 0))
+
+    traces = pmap(do_cfg, list(enumerate(acfgs)), chunksize=64) + pmap(do_rcfg, range(n_rcfg), chunksize=32)
+    pipe.feed(traces, sample_at=len(acfgs) // 3)
+    n_cfg_built = sum(1 for t in traces if t["ev"][0]["a"] == "Config")
+    say(f"[C16] {len(traces)} merge configurations ({len(acfgs)} enumerated by TLC) built through load_from_config, {n_cfg_built} trees observed ({v.timer.s()}s)")
+    # (a configuration that is refused or crashes is a trace of its own - one Crash event - which TLC rejects below)
 
     # ---- sampled trees beyond the enumerated space (depth 4, bigger numbers), valid-by-construction trees for the format lanes
     n_rand = 2000 if quick else 40000
@@ -850,13 +1202,16 @@ def run(tier):
     v.cov["rule"] = (
         f"trees = every tree of the bounded space enumerated by TLC ({n_abstract}: <= {3 if quick else 4} images, offsets/sizes/alignments/binary lengths from small menus) "
         f"+ {n_rand} seeded random trees (depth <= 4, offsets < 300, lengths <= 600, alignment 1..16, 8 patterns) + {n_pack} valid-by-construction trees; "
+        f"merge configurations = every configuration of the bounded space enumerated by TLC ({len(acfgs)}: <= 3 regions in listing order, each a pattern block / binary file / "
+        f"HEX or S19 file with one or two segments, offset given (0 included) or omitted, overall size derived with alignment 1 / 4 or explicit with alignment 1) + {n_rcfg} seeded random ones "
+        f"(<= 5 regions, <= 3 segments, file addresses < 2^30, negative offsets), built through load_from_config from a dictionary (13 of 16), a YAML file (2 of 16) or a JSON file (1 of 16; files go through load_configuration + check_config), every 7th followed by update_offsets; "
         f"histories = behaviours of length 5{'' if quick else ' / 6'} over small per-image menus (creation first; 2 images: all, 3 images: {'seeded subset' if quick else 'all / seeded subset'}) "
         f"+ {len(sim)} simulated behaviours of length 10 over big menus + {n_rh} seeded random histories chosen against the real objects; every {fmt_every}th enumerated tree and "
         f"every sampled valid tree goes through one BIN/HEX/S19 round trip at one of 9 base-address classes; {n_raw} HEX/S19 files of an independent encoder are loaded; "
         "distinct by (class, inputs), non-trivial = at least one validate() or load observation was decided by TLC"
     )
     v.cov["exhaustive"] = True
-    v.cov["checker_cmd"] = "TLC BinImageMC (lemmas over histories); TLC BinImageTrees (lemmas + enumeration); TLC BinImageGen (histories); TLC BinImageTrace (decides every observation)"
+    v.cov["checker_cmd"] = "TLC BinImageMC (lemmas over histories); TLC BinImageTrees (lemmas + enumeration); TLC BinImageCfg (configuration lemmas + enumeration); TLC BinImageGen (histories); TLC BinImageTrace (decides every observation)"
     v.cov["trusted_base"] = ["TLC", "hex-pair tokenisation of file lines (bytes.fromhex)", "Python's own text decoding for the `textlike` fact",
                              "the independent HEX/S19 encoder of the raw-file lane (its output is itself decoded by the TLA+ automata before it counts)"]
     v.assumptions += [
@@ -869,7 +1224,12 @@ def run(tier):
         "HEX / S19 files need not store gap bytes owned by an image without pattern (if present their value is free: SPSDK writes an enclosing image's pattern there, BIN has zeros)",
         "a BIN payload that is itself decodable text (or starts with the ELF magic) may be loaded as whatever the sniffer sees (inherent ambiguity); only a refused load is reported",
         "execution start address: asserted for HEX / S19 when one was set; offsets are non-negative; images end at or below 2^32; empty images are not saved",
-        "nxpimage CLI (binary-image create/merge/convert) and BinaryImage.load_from_config are not driven",
+        "merge configuration: an omitted offset may be read as 'behind the region listed just before' or 'behind all regions listed before' (both accepted; they coincide for "
+        "listings in address order); the first region without offset starts at 0; a HEX / S19 region file with non-zero addresses and no offset, a region that lands below 0, "
+        "numbers written as quoted strings (the schema allows them, load_from_config does not convert them: TypeError) and ELF region files are outside the domain; gaps between the "
+        "segments of a region file hold the pattern of the merge (the file has none of its own)",
+        "the nxpimage CLI wrappers (binary-image create / merge / convert) are not driven themselves; the merge lane calls what `binary-image merge` calls "
+        "(load_configuration, check_config, load_from_config, optionally update_offsets, validate, export)",
     ]
     return v.finish()
 
@@ -882,6 +1242,8 @@ def rebuild(recipe, tid=0):
         return replay_history(recipe["hist"], tid, r)
     if recipe["kind"] == "raw":
         return load_raw(tid, recipe["fmt"], recipe["text"], recipe["base"])
+    if recipe["kind"] == "cfg":
+        return replay_config(recipe["cfg"], tid, r, entry=recipe["entry"], adjust=recipe["adjust"], all_nodes=recipe["all_nodes"])
     raise Machinery(f"unknown recipe {recipe['kind']}")
 
 
